@@ -81,6 +81,9 @@ def main():
         x for x in os.listdir(SEEDED) if os.path.isdir(os.path.join(SEEDED, x)))
     rows = []
     for sid in ids:
+        if json.load(open(os.path.join(SEEDED, sid, 'meta.json'))).get('obsolete'):
+            print(sid, 'OBSOLETE (the code it edited was replaced by a later fix; see meta.json)')
+            continue
         res = run_one(sid, in_repo)
         json.dump(res, open(os.path.join(SEEDED, sid, 'result.json'), 'w'), indent=1)
         rows.append(res)
@@ -95,6 +98,10 @@ def main():
             continue
         r = json.load(open(p))
         m = json.load(open(os.path.join(SEEDED, sid, 'meta.json')))
+        if m.get('obsolete'):
+            lines.append('| %s | %s | %s | obsolete | %s |' % (sid, r['property'], m.get('summary', '')[:90].replace('|', '/'),
+                                                               m['obsolete'][:160].replace('|', '/')))
+            continue
         how = '; '.join('%s: %s' % (c, 'replay' if v['concrete_replay'] else ('no-failing-input-found' if v['violations'] else 'silent'))
                         for c, v in r.get('checks', {}).items())
         lines.append('| %s | %s | %s | %s | %s |' % (sid, r['property'], m.get('summary', '')[:90].replace('|', '/'),
